@@ -27,6 +27,15 @@ type meteredLRU struct {
 	get, put, hit, miss counter
 }
 
+// ampleCap: a capacity so large that nothing is ever evicted may be spelled in many ways; callers use the largest
+// numbers as "unbounded"
+func ampleCap(max uint64, n int) uint64 {
+	if max < 1<<20 {
+		return max
+	}
+	return []uint64{max, 1 << 40, 1<<63 - 1, 1 << 63, 1<<64 - 1}[n%5]
+}
+
 func newMetered(max uint64) *meteredLRU {
 	m := &meteredLRU{}
 	m.c = updog.NewLRUCache(max, updog.WithCacheMetrics(&updog.CacheMetrics{CacheHit: &m.hit, CacheMiss: &m.miss, GetCall: &m.get, PutCall: &m.put}))
@@ -196,6 +205,7 @@ func replayLRU(args []string) error {
 			}
 			return nil
 		}
+		b.Max = ampleCap(b.Max, rep.Behaviours)
 		m, _, obs := applyOps(b.Max, b.Ops, len(b.Ops), classes)
 		for i, o := range obs {
 			rep.Steps++
